@@ -321,6 +321,23 @@ std::string op_opt_more(std::string const &_op, line_t const &L)
     event_log const log{g_log};
     return finish("-", slots(sink), {opt_slots(a), opt_slots(b)}, log);
   }
+  if (_op == "optcombineself")
+  {
+    need(L.args.size() == 1 && L.par.empty() && (L.cat(0) == 'l' || L.cat(0) == 'c'));
+    if constexpr (T::copyable)
+    {
+      auto o{mk_opt<T>(L.args[0])};
+      mark(o);
+      g_log.clear();
+      opt<T> const r{
+          L.cat(0) == 'l' ? fcppt::optional::combine(o, o, sink_second{})
+                          : fcppt::optional::combine(std::as_const(o), std::as_const(o), sink_second{})};
+      event_log const log{g_log};
+      return finish(opt_tag(r), opt_slots(r), {opt_slots(o)}, log);
+    }
+    else
+      throw bad_op{};
+  }
   if (_op == "optcopyvalue")
   {
     // an optional reference (T & for `l`, T const & for `c`); copy_value copies the referenced object
@@ -370,7 +387,7 @@ bool dispatch(std::string const &_op, line_t const &L, std::string &_out)
   if (_op == "optapply2")
     return (_out = op_opt2<T>(_op, L), true);
   if (_op == "optmake" || _op == "optctor" || _op == "optassign" || _op == "opttoexc" || _op == "optmakeif" || _op == "optmaybe" ||
-      _op == "optmaybevoid" || _op == "optmaybemulti2" || _op == "optmaybevoidmulti2" || _op == "optcopyvalue")
+      _op == "optmaybevoid" || _op == "optmaybemulti2" || _op == "optmaybevoidmulti2" || _op == "optcopyvalue" || _op == "optcombineself")
     return (_out = op_opt_more<T>(_op, L), true);
   if (_op == "optseq")
     return (_out = op_optvec<T>(_op, L), true);
